@@ -422,6 +422,16 @@ static void run_case(vh_ctx *c)
       if (!(fabs(ra->data[k] - 1) <= 1e-12)) { vh_fail(c, "LDAMulticlassStatistics|perfect-prediction-auc", "class %zu of %zu: ROC AUC = %.17g for predictions identical to the truth (%zu objects)", k, K, ra->data[k], tr.n); break; }
     }
     if (with_curves && roc->order != want) vh_fail(c, "LDAMulticlassStatistics|one-curve-per-class", "%zu ROC curves for %zu classes", roc->order, K);
+    /* the same output containers used for a second set of (perfect) predictions, as a model object keeps them (third seeded wave):
+       the routine appends, so the containers then hold two entries / curves per class - and every area is still 1 */
+    if ((c->idx & 1) && ra->size == want) {
+      LDAMulticlassStatistics(y0, y1, with_curves ? roc : NULL, ra, with_curves ? prc : NULL, pa);
+      vh_obs("multiclass_statistics_second_calls_into_the_same_containers", 1);
+      if (ra->size != 2 * want || pa->size != 2 * want) vh_fail(c, "LDAMulticlassStatistics|second-call-entries", "%zu ROC areas and %zu PR areas after two calls for %zu classes", ra->size, pa->size, K);
+      else for (k = 0; k < 2 * want; k++) if (!(fabs(ra->data[k] - 1) <= 1e-12)) { vh_fail(c, "LDAMulticlassStatistics|perfect-prediction-auc|second-call-into-the-same-containers", "entry %zu: ROC AUC = %.17g for predictions identical to the truth", k, ra->data[k]); break; }
+      if (with_curves && roc->order != 2 * want) vh_fail(c, "LDAMulticlassStatistics|second-call-curves", "%zu ROC curves after two calls for %zu classes", roc->order, K);
+      if (with_curves) for (k = 0; k < roc->order; k++) if (roc->m[k]->row == 0 || roc->m[k]->col < 2) { vh_fail(c, "LDAMulticlassStatistics|empty-curve|second-call-into-the-same-containers", "ROC curve %zu is %zux%zu", k, roc->m[k]->row, roc->m[k]->col); break; }
+    }
     DelDVector(&ra); DelDVector(&pa); DelTensor(&roc); DelTensor(&prc); DelMatrix(&y0); DelMatrix(&y1);
   }
 
